@@ -31,8 +31,15 @@ import (
 // value bytes differ from block to block).
 type Blk struct {
 	T   uint64 `json:"t"`           // type number (1-, 3- or 5-byte form)
-	L   int    `json:"l"`           // value length; the length field uses the shortest form
+	L   int    `json:"l"`           // value length
 	Rep int    `json:"r,omitempty"` // number of repetitions (0 = 1)
+	// LF / TF > 0: the length / type field is written in that many bytes (3 or 5) although a
+	// shorter form exists. The repository's own TLV reader (enc.ReadTLNum, used by the framer
+	// and by every packet parser) accepts such numbers, and the property's quantifier lists
+	// "1/3/5-byte length forms" for blocks of at most 8800 bytes, whose shortest length form is
+	// 1 or 3 bytes.
+	LF int `json:"lf,omitempty"`
+	TF int `json:"tf,omitempty"`
 }
 
 // Step: Rep consecutive Read calls that return N bytes each (N == 0: a zero-length read
@@ -56,9 +63,10 @@ const recvBufSize = defn.MaxNDNPacketSize * 32
 // ---------------------------------------------------------------------------- stream
 
 type layout struct {
-	data   []byte
-	starts []int // start offset of every block, plus len(data) of the untruncated stream
-	hdr    []int // header (type+length) size of every block
+	data    []byte
+	starts  []int // start offset of every block, plus len(data) of the untruncated stream
+	hdr     []int // header (type+length) size of every block
+	longHdr bool  // some block's type or length is not in its shortest form
 }
 
 func build(c Case) layout {
@@ -71,8 +79,20 @@ func build(c Case) layout {
 		}
 		for r := 0; r < rep; r++ {
 			lo.starts = append(lo.starts, len(lo.data))
-			lo.data = tlvwalk.AppendVarNum(lo.data, b.T)
-			lo.data = tlvwalk.AppendVarNum(lo.data, uint64(b.L))
+			if b.TF > tlvwalk.VarNumSize(b.T) {
+				lo.data = tlvwalk.AppendVarNumSized(lo.data, b.T, b.TF)
+			} else {
+				lo.data = tlvwalk.AppendVarNum(lo.data, b.T)
+			}
+			if b.LF > tlvwalk.VarNumSize(uint64(b.L)) {
+				lo.data = tlvwalk.AppendVarNumSized(lo.data, uint64(b.L), b.LF)
+				lo.longHdr = true
+			} else {
+				lo.data = tlvwalk.AppendVarNum(lo.data, uint64(b.L))
+			}
+			if b.TF > tlvwalk.VarNumSize(b.T) {
+				lo.longHdr = true
+			}
 			lo.hdr = append(lo.hdr, len(lo.data)-lo.starts[len(lo.starts)-1])
 			for i := 0; i < b.L; i++ {
 				if i&3 == 0 {
@@ -218,10 +238,14 @@ func (c scriptConn) SetWriteDeadline(time.Time) error { return nil }
 // sinkT compares every delivered frame with the block that is due, immediately (the
 // frame aliases the receive buffer and is only valid during the callback).
 type sinkT struct {
-	lo    *layout
-	n     int
-	err   error
-	whole int // number of blocks completely inside the served part of the stream
+	// normalised: the receiver re-encodes type and length (the application-side StreamFace
+	// parses them and builds a fresh header): a block whose header was not in shortest form is
+	// then delivered with the shortest one -- the same TLV block, value byte-identical
+	normalised bool
+	lo         *layout
+	n          int
+	err        error
+	whole      int // number of blocks completely inside the served part of the stream
 }
 
 func (k *sinkT) frame(b []byte) {
@@ -233,6 +257,12 @@ func (k *sinkT) frame(b []byte) {
 		return
 	}
 	want := k.lo.data[k.lo.starts[k.n]:k.lo.starts[k.n+1]]
+	if k.normalised && !bytes.Equal(b, want) {
+		if t, err := tlvwalk.Parse(want, 0); err == nil {
+			short := tlvwalk.AppendVarNum(tlvwalk.AppendVarNum(nil, t.Type), t.Len)
+			want = append(short, want[t.ValOff:]...)
+		}
+	}
 	if !bytes.Equal(b, want) {
 		off := 0
 		for off < len(b) && off < len(want) && b[off] == want[off] {
@@ -294,6 +324,9 @@ func classes(c Case, lo *layout, s *script) (cls []string, nontrivial bool) {
 	}
 	if c.Trunc > 0 {
 		cls = append(cls, "eof-inside-block")
+	}
+	if lo.longHdr {
+		cls = append(cls, "type-or-length-not-in-shortest-form")
 	}
 	if s.reads > 0 && s.off/s.reads <= 2 {
 		cls = append(cls, "mostly-tiny-reads")
@@ -364,7 +397,7 @@ func execFw(c Case) (res evid.Result) {
 func execApp(c Case) (res evid.Result) {
 	lo := build(c)
 	s := newScript(c, &lo)
-	sink := &sinkT{lo: &lo, whole: wholeBlocks(&lo, s.end)}
+	sink := &sinkT{lo: &lo, whole: wholeBlocks(&lo, s.end), normalised: true}
 	f := appface.VerifNewStreamFaceOnConn(scriptConn{s}, true)
 	var gotErr error
 	f.SetCallback(func(r enc.ParseReader) error {
@@ -418,11 +451,31 @@ func genBlk(t *rapid.T, budget int) Blk {
 	if b.L > maxL {
 		b.L = maxL
 	}
+	// now and then a header that is not in shortest form
+	if rapid.IntRange(0, 4).Draw(t, "longLen") == 0 {
+		b.LF = rapid.SampledFrom([]int{3, 5, 5}).Draw(t, "lenForm")
+	}
+	if rapid.IntRange(0, 9).Draw(t, "longType") == 0 {
+		b.TF = rapid.SampledFrom([]int{3, 5}).Draw(t, "typeForm")
+	}
+	if over := blkSize(b) - defn.MaxNDNPacketSize; over > 0 {
+		b.L -= over
+		if over := blkSize(b) - defn.MaxNDNPacketSize; over > 0 { // the length field got shorter
+			b.L -= over
+		}
+	}
 	return b
 }
 
 func blkSize(b Blk) int {
-	return tlvwalk.VarNumSize(b.T) + tlvwalk.VarNumSize(uint64(b.L)) + b.L
+	ts, ls := tlvwalk.VarNumSize(b.T), tlvwalk.VarNumSize(uint64(b.L))
+	if b.TF > ts {
+		ts = b.TF
+	}
+	if b.LF > ls {
+		ls = b.LF
+	}
+	return ts + ls + b.L
 }
 
 // genAligned: every read returns exactly one whole block (or k whole blocks), with a block size
